@@ -170,6 +170,57 @@ func RunImpl(c Case) (events []sse.Event, err error, afterErr bool) {
 	return events, err, afterErr
 }
 
+// PairCase: one Connection that reads Stream, loses the connection (cleanly, or with a read error), reconnects
+// once and reads Second. The second stream is interpreted with the last event ID the first one DISPATCHED.
+type PairCase struct {
+	Stream string `json:"stream"`
+	EndErr string `json:"end_error"`
+	Second string `json:"second_stream"`
+}
+
+type rt2 struct {
+	bodies []io.Reader
+	n      int
+}
+
+func (t *rt2) RoundTrip(req *http.Request) (*http.Response, error) {
+	if t.n >= len(t.bodies) {
+		return nil, errors.New("no more scripted responses")
+	}
+	b := t.bodies[t.n]
+	t.n++
+	return &http.Response{StatusCode: 200, Status: "200 OK", Proto: "HTTP/1.1", ProtoMajor: 1, ProtoMinor: 1,
+		Header: http.Header{"Content-Type": {"text/event-stream"}}, Body: io.NopCloser(b), Request: req}, nil
+}
+
+// JudgePair returns signature NUL message, or "".
+func JudgePair(c PairCase) (v string) {
+	desc := fmt.Sprintf("first stream %q (end error %q), then a reconnection with stream %q", c.Stream, c.EndErr, c.Second)
+	defer func() {
+		if r := recover(); r != nil {
+			v = "the code under test panicked\x00" + desc + fmt.Sprintf(": panic: %v", r)
+		}
+	}()
+	first := ref.Interpret(c.Stream, ref.Mode{RetryDispatches: true, NoFlushAtEnd: c.EndErr != ""})
+	second := ref.Interpret(c.Second, ref.Mode{RetryDispatches: true, InitialLastEventID: first.LastEventID})
+	want := append(append([]ref.Event{}, first.Events...), second.Events...)
+	tr := &rt2{bodies: []io.Reader{&ChunkReader{Data: c.Stream, EndErr: endErrOf(c.EndErr)}, &ChunkReader{Data: c.Second}}}
+	cl := sse.Client{HTTPClient: &http.Client{Transport: tr}, ResponseValidator: sse.NoopValidator, Backoff: sse.Backoff{MaxRetries: 1, InitialInterval: 1, Jitter: -1}}
+	conn := cl.NewConnection(baseReq)
+	var got []sse.Event
+	conn.SubscribeToAll(func(e sse.Event) { got = append(got, e) })
+	_ = conn.Connect()
+	if len(got) != len(want) {
+		return "Connection: events across a reconnection differ from the reference\x00" + desc + fmt.Sprintf(": got %d events %+v, reference %d events %+v", len(got), got, len(want), want)
+	}
+	for i := range want {
+		if got[i].LastEventID != want[i].LastEventID || got[i].Type != want[i].Type || got[i].Data != want[i].Data {
+			return "Connection: events across a reconnection differ from the reference\x00" + desc + fmt.Sprintf(": event %d is %+v, reference %+v (the ID of an event that was never dispatched must not survive)", i, got[i], want[i])
+		}
+	}
+	return ""
+}
+
 // Judge compares with the reference. It returns signature NUL message, or "".
 func Judge(c Case) (v string) {
 	defer func() {
@@ -317,6 +368,22 @@ type collector struct {
 	st       stats
 	timedOut atomic.Bool
 	connAll  bool
+}
+
+func (k *collector) judgePair(c PairCase) {
+	k.st.cases.Add(1)
+	k.st.nontrivial.Add(1)
+	v := JudgePair(c)
+	if v == "" {
+		return
+	}
+	i := strings.IndexByte(v, 0)
+	sig, msg := v[:i], v[i+1:]
+	k.mu.Lock()
+	defer k.mu.Unlock()
+	k.c.Rep.Add(sig, msg, func() string {
+		return ev.WriteReplay(k.c.Prop, sig, map[string]any{"property": k.c.Prop, "pair_case": c, "violation": msg, "signature": sig, "how_to_replay": "./check " + k.c.Prop + " --replay <this file>"})
+	})
 }
 
 func (k *collector) judge(c Case, nontrivial bool) {
